@@ -180,7 +180,7 @@ func init() {
 		Title: "Shutdown always completes: no hang, no panic, channels closed",
 		Explain: "Decides structural necessary conditions of clean shutdown: WaitGroup Add/Done pairing of the fan-out helpers (C12.pairing; the pipeline groups are covered by C01/C03/C07 rules that this property shares); a frozen table of close() sites per channel field with their once/defer attributes, so that a second closer or a closer outside its sync.Once is reported (C12.close-sites); the close/wait hand-shakes of client, broker, offset manager, heartbeat, partition consumer and subscription manager (C12.handshakes); every blocking select of the long-running loops has a case on its component's shutdown channel (C12.dying); for channels closed by their only sender, the sender table (C12.who-sends); the closure handed to a sync.Once in a Close path has no return that skips teardown its normal exit performs (C12.once-complete); every subscription of a broker worker that gives up is handed back to its dispatcher exactly once, dying ones included — the hand-over is what lets a closing partition consumer finish (C03.redispatch, shared). " +
 			"NOT covered: absence of deadlock in general, send/close races that need a happens-before argument (consumerGroup.errors, partitionConsumer.errors/trigger).",
-		Rules: []func(*Ctx){c12Pairing, c12CloseSites, c12OnceComplete, c12LockReleased, c12Refcount, c12Handshakes, c12Dying, c12WhoSends, c12SendVsCloseLock, c01Shutdown, c01BrokerShutdown, c01Markers, c03Redispatch, c03ErrLost, c07Order, c01CloseDrains, c12RetryObservesClose, c12DispatcherObservesDying, c12NoDetachedSend, c01AsyncCloseNonBlocking, c03TimerRearmed, c12ClosedTestApartFromSend, c01ShutdownSelects, c03VerdictConsumed, c07Fenced, c14ReopenableAfterClose, c14CloseTeardownComplete, c03HandedOverBatch, c12LoopVarCapture, c12ShutdownArmLeaves, c15Lock, c12DeferUnlockInLoop},
+		Rules: []func(*Ctx){c12Pairing, c12CloseSites, c12OnceComplete, c12LockReleased, c12Refcount, c12Handshakes, c12Dying, c12WhoSends, c12SendVsCloseLock, c01Shutdown, c01BrokerShutdown, c01Markers, c03Redispatch, c03ErrLost, c07Order, c01CloseDrains, c12RetryObservesClose, c12DispatcherObservesDying, c12NoDetachedSend, c01AsyncCloseNonBlocking, c03TimerRearmed, c12ClosedTestApartFromSend, c01ShutdownSelects, c03VerdictConsumed, c07Fenced, c14ReopenableAfterClose, c14CloseTeardownComplete, c03HandedOverBatch, c12LoopVarCapture, c12ShutdownArmLeaves, c15Lock, c12DeferUnlockInLoop, c12RecursiveLock},
 	})
 }
 
